@@ -20,6 +20,11 @@ pub fn id() -> impl Strategy<Value = u64> {
         }),
         2 => 0u64..end,
         1 => (0u64..end, 0u64..40).prop_map(move |(b, d)| (b.saturating_add(d)).min(end - 1)),
+        // ids around powers of two that matter for 32-bit arithmetic and varint widths
+        1 => (prop_oneof![Just(7u32), Just(14), Just(21), Just(28), Just(31), Just(32), Just(33), Just(35), Just(42), Just(56)], 0u64..3, any::<bool>(), 1u64..4).prop_map(move |(sh, d, below, k)| {
+            let b = k << sh;
+            (if below { b.saturating_sub(d + 1) } else { b + d }).min(end - 1)
+        }),
     ]
 }
 
